@@ -6,6 +6,8 @@ the declarative value (MachineAgrees); (blocks) every block of <= 4 declarations
 of the block without them; (shorthands) TRBL / border-family / flex tables; (spellings) the list of (declaration, variant).
 Binding: every scenario is materialised and the computed style of a probe element (or the PreprocessDeclarations output)
 must be what the specification states. Each var() scenario runs in a worker process: a stack overflow is a verdict.
+Also: background shorthand with one or two layers (BgScn: image, position, "/ size") against the longhand lists, and function
+names in upper case (gradients, counter(), attr(), leader(), transform functions).
 """
 import os
 from vlib import MachineryError
